@@ -156,6 +156,13 @@ FORMATS = {
              ("chr2", 8878, ".", "AGG", "C", ".", "q10", "DP=123;AF=1.0;DB;AA=C")],
             [("chrX", 5, "rs9", "T", "TA", "99", "PASS", "DP=1;AF=0.125;AA=A"),
              ("c", 12345, "id", "G", "C", ".", ".", "DP=2000;AF=0.75;DB;AA=T")]),
+    # the same records without any header line: INFO stays text and the eager writer can serialise it
+    "vcf0": (".vcf", _tsv,
+             [("chr1", 88362, "rs1", "A", "G", ".", ".", "DP=10;AF=0.5;DB;AA=T"),
+              ("chr1", 887560, "rs3748595", "A", "CAA", "30", "PASS", "DP=7"),
+              ("chr2", 8878, ".", "AGG", "C", ".", "q10", ".")],
+             [("chrX", 5, "rs9", "T", "TA", "99", "PASS", "AA=A"),
+              ("c", 12345, "id", "G", "C", ".", ".", "DP=2000;AF=0.75;DB;AA=T")]),
     "sam": (".sam", lambda rows: _tsv(rows, SAM_HEADER),
             [("r1", 16, "ref", 1706, 255, "5M", "*", 0, 0, "TGCTG", "]YG[^", "AS:i:0"),
              ("read2", 0, "ref", 17, 25, "2M1I1M", "*", 0, 0, "TGCA", "`\\X_", "NM:i:0\tMD:Z:3"),
@@ -228,6 +235,18 @@ def norm(x, depth=0):
     return repr(x)
 
 
+def norm_column(x):
+    """a column (one value per row) as the list of its row values.  A one-character-per-row text column is a 1-d
+    EncodedArray in one mode and a ragged array with rows of length 1 in the other; both are the same row values."""
+    import numpy as np
+    from bionumpy.encoded_array import EncodedArray, EncodedRaggedArray
+    if isinstance(x, EncodedArray) and not isinstance(x, EncodedRaggedArray) and x.ndim >= 1:
+        return [norm(x[i]) for i in range(len(x))]
+    if dataclasses.is_dataclass(x) and not isinstance(x, type):
+        return {"dc": [(f.name, norm_column(getattr(x, f.name))) for f in dataclasses.fields(x)]}
+    return norm(x)
+
+
 # ----------------------------------------------------------------------------------------------------------------
 # operations
 # ----------------------------------------------------------------------------------------------------------------
@@ -257,6 +276,10 @@ def fresh_value(kind, n, salt):
         return np.array([base[(i + salt) % 4] + i for i in range(n)], dtype=float)
     words = ["A", "ACGT", "GG", "TTTTTTTA", "CA"]
     vals = [words[(i + salt) % 5] + "ACGT"[i % 4] * (i % 3) for i in range(n)]
+    if kind == "seqid":
+        # the array type of a SequenceID column (what t.<field> returns)
+        from bionumpy.string_array import as_string_array
+        return as_string_array(vals + ["pad"])[:n]
     if n == 0:
         return bnp.as_encoded_array([""])[:0]
     return bnp.as_encoded_array(vals)
@@ -325,15 +348,15 @@ class Env:
             self.paths[which] = p
         return self.paths[which]
 
-    def read(self, lazy):
+    def read(self, lazy, need_u=True):
         """-> [t, u] for one mode"""
         import bionumpy as bnp
         if self.mode == "whole":
             out = []
-            for which in ("A", "B"):
+            for which in ("A", "B") if need_u else ("A",):
                 with bnp.open(self.path(which), lazy=lazy, buffer_type=self.buffer_type) as f:
                     out.append(f.read())
-            return out
+            return out if need_u else out + [None]
         size = int(self.mode.split(":")[1])
         with bnp.open(self.path("AB"), lazy=lazy, buffer_type=self.buffer_type) as f:
             chunks = list(f.read_chunks(min_chunk_size=size))
@@ -342,19 +365,62 @@ class Env:
         return [chunks[0], chunks[-1]]
 
     def write(self, table, tag):
+        """write with the public writer; same file name in both modes (a gzip header stores it); compressed
+        outputs are compared after decompression (the gzip header also stores a time stamp)"""
         import bionumpy as bnp
         base = GZ_FORMATS.get(self.fmt, self.fmt)
-        p = os.path.join(self.tmp, "out_%s_%s%s" % (tag, base, FORMATS[base][0]))
+        d = os.path.join(self.tmp, "out_" + tag)
+        os.makedirs(d, exist_ok=True)
+        p = os.path.join(d, "out%s%s" % (FORMATS[base][0], ".gz" if self.fmt in GZ_FORMATS else ""))
         if os.path.exists(p):
             os.unlink(p)
         with bnp.open(p, "w", buffer_type=self.buffer_type) as f:
             f.write(table)
         with open(p, "rb") as f:
-            return f.read().decode("latin1")
+            data = f.read()
+        if p.endswith(".gz") or p.endswith(".bam"):
+            import gzip
+            data = gzip.decompress(data)
+        return data.decode("latin1")
 
 
-def apply_op(env, op, regs, n_eager, tag):
-    """apply one op to the registers [t, u] of one mode; returns the observed value (already normalised) or None"""
+COMMENT_PREFIX = {"sam": "@", "vcf": "#", "vcf0": "#", "pairs": "#", "wig": "#"}
+
+
+def strip_comment_lines(fmt, text):
+    c = COMMENT_PREFIX.get(GZ_FORMATS.get(fmt, fmt))
+    if c is None:
+        return text
+    return "".join(l for l in text.splitlines(True) if not l.startswith(c))
+
+
+def prepare(op, fields, n_eager):
+    """harness part of an op, outside the guarded call: the index object / the new column.  Raises Skip when the op
+    is not applicable in the current state (t[i] of an empty table, replace of a column that is not a plain array)"""
+    import numpy as np
+    kind = op[0]
+    if kind == "item":
+        if n_eager == 0:
+            raise Skip()
+        return {"first": 0, "last": n_eager - 1, "neg": -1, "np_last": np.int64(n_eager - 1)}[op[1]]
+    if kind == "idx":
+        idx = index_of(op[1], n_eager)
+        if idx is None:
+            raise Skip()
+        return idx
+    if kind in ("replace", "set"):
+        fk = dict(fields).get(op[1], "other")
+        if fk == "other" or (op[2] == "self" and fk != "int"):
+            raise Skip()
+        if op[2] == "self":
+            return None
+        # a separate object for each mode, so that nothing is shared between the two runs
+        return lambda: fresh_value("str" if op[2] == "era" else fk, n_eager, {"fresh": 0, "fresh2": 3, "era": 1}[op[2]])
+    return None
+
+
+def apply_op(env, op, regs, arg, tag):
+    """library part of an op on the registers [t, u] of one mode; returns the observed value (normalised) or None"""
     import numpy as np
     import bionumpy as bnp
     t, u = regs
@@ -362,7 +428,7 @@ def apply_op(env, op, regs, n_eager, tag):
     if kind == "len":
         return len(t)
     if kind == "get":
-        return norm(getattr(t, op[1]))
+        return norm_column(getattr(t, op[1]))
     if kind == "tolist":
         return norm(t.tolist())
     if kind == "str":
@@ -370,15 +436,9 @@ def apply_op(env, op, regs, n_eager, tag):
     if kind == "write":
         return env.write(t, tag)
     if kind == "item":
-        if n_eager == 0:
-            raise Skip()
-        i = {"first": 0, "last": -1, "np_last": np.int64(n_eager - 1)}[op[1]]
-        return norm(t[i])
+        return norm(t[arg])
     if kind == "idx":
-        idx = index_of(op[1], n_eager)
-        if idx is None:
-            raise Skip()
-        regs[0] = t[idx]
+        regs[0] = t[arg]
         return None
     if kind == "cat":
         a = {"t": t, "u": u}[op[1][0]]
@@ -390,15 +450,7 @@ def apply_op(env, op, regs, n_eager, tag):
         return None
     if kind in ("replace", "set"):
         f = op[1]
-        fk = field_kind({fl.name: fl.type for fl in dataclasses.fields(t)}[f])
-        if fk == "other":
-            raise Skip()
-        if op[2] == "self":
-            if fk != "int":
-                raise Skip()
-            value = getattr(t, f) + 1
-        else:
-            value = fresh_value(fk, n_eager, {"fresh": 0, "fresh2": 3}[op[2]])
+        value = (getattr(t, f) + 1) if op[2] == "self" else arg
         if kind == "replace":
             regs[0] = bnp.replace(t, **{f: value})
         else:
@@ -407,28 +459,30 @@ def apply_op(env, op, regs, n_eager, tag):
     raise ValueError(op)
 
 
-def op_kind_label(op):
-    return op[0]
+OBSERVE = ("len", "get", "tolist", "item", "str")
 
 
 class Divergence:
     def __init__(self, step, where, kind, detail):
+        # every value observation is one place ("observe"): which of get / tolist / t[i] / str shows a wrong table
+        # first depends on the program, not on the defect
+        self.op = where
+        where = "observe" if where in OBSERVE else where
         self.step, self.where, self.kind, self.detail = step, where, kind, detail
+        self.empty = False   # the table operated on has no rows
 
     def key(self):
-        return (self.where, self.kind)
+        return (self.where, self.kind, self.empty)
 
 
 def _outcome(fn):
     try:
         return ("ok", fn())
-    except Skip:
-        raise
     except Exception as e:  # the property speaks of "fails": any exception
         return ("exc", type(e).__name__, str(e)[:200])
 
 
-def _compare(step, where, lo, eo, bytes_like=False):
+def _compare(step, where, lo, eo, bytes_like=False, fmt=None):
     if lo[0] == "exc" and eo[0] == "exc":
         return "both-fail", None
     if lo[0] == "exc":
@@ -436,9 +490,16 @@ def _compare(step, where, lo, eo, bytes_like=False):
     if eo[0] == "exc":
         return None, Divergence(step, where, "only-eager-fails:" + eo[1], "eager raised %s(%s); lazy gave %r" % (eo[1], eo[2], _short(lo[1])))
     if lo[1] != eo[1]:
-        return None, Divergence(step, where, "bytes-differ" if bytes_like else "values-differ",
-                                "lazy %r != eager %r" % (_short(lo[1]), _short(eo[1])))
+        kind = "values-differ"
+        if bytes_like:
+            kind = "bytes-differ"
+            if strip_comment_lines(fmt, lo[1]) == strip_comment_lines(fmt, eo[1]):
+                kind = HEADER_ONLY
+        return None, Divergence(step, where, kind, "lazy %r != eager %r" % (_short(lo[1]), _short(eo[1])))
     return "equal", None
+
+
+HEADER_ONLY = "header-or-comment-lines-differ"
 
 
 def _short(v):
@@ -449,48 +510,69 @@ def _short(v):
 def run_program(env, prog, final=True):
     """-> (status, [Divergence]); status in ok / skip / both-fail(step).  Stops at the first diverging step; the
     final observation reports every diverging observation."""
+    need_u = any(op[0] == "swap" or (op[0] == "cat" and "u" in op[1]) for op in prog)
     try:
-        lo = _outcome(lambda: env.read(True))
-        eo = _outcome(lambda: env.read(False))
+        lo = _outcome(lambda: env.read(True, need_u))
+        eo = _outcome(lambda: env.read(False, need_u))
     except Skip:
         return "skip", []
     if lo[0] == "exc" or eo[0] == "exc":
         st, d = _compare(-1, "read", ("ok", None) if lo[0] == "ok" else lo, ("ok", None) if eo[0] == "ok" else eo)
         return ("both-fail" if st else "diverged"), ([d] if d else [])
     L, E = lo[1], eo[1]
+    soft = []   # header-only differences of a write inside the program: recorded, the program goes on
+    status = "ok"
+    fields = [(f.name, field_kind(f.type)) for f in dataclasses.fields(E[0])]
     for step, op in enumerate(prog):
         try:
             n = len(E[0])
         except Exception:
             n = 0
         try:
-            lo = _outcome(lambda: apply_op(env, op, L, n, "lazy"))
-            eo = _outcome(lambda: apply_op(env, op, E, n, "eager"))
+            arg = prepare(op, fields, n)
         except Skip:
             return "skip", []
-        st, d = _compare(step, op[0], lo, eo, bytes_like=(op[0] == "write"))
+        mk = arg if callable(arg) else (lambda: arg)
+        la, ea = mk(), mk()
+        lo = _outcome(lambda: apply_op(env, op, L, la, "lazy"))
+        eo = _outcome(lambda: apply_op(env, op, E, ea, "eager"))
+        st, d = _compare(step, op[0], lo, eo, bytes_like=(op[0] == "write"), fmt=env.fmt)
         if d:
-            return "diverged", [d]
+            d.empty = (n == 0)
+            if d.kind == HEADER_ONLY:
+                if not soft:
+                    soft.append(d)
+                continue
+            return "diverged", soft + [d]
         if st == "both-fail":
-            return "both-fail", []
+            status = "both-fail"   # the step fails in both modes, as the statement allows; the program goes on
     if not final:
-        return "ok", []
-    divs = []
+        return status, soft
+    divs = list(soft)
     try:
         names = [f.name for f in dataclasses.fields(E[0])]
     except Exception:
         names = []
-    obs = [("final.len", ["len"])] + [("final.get", ["get", f]) for f in names] + [("final.tolist", ["tolist"]), ("final.write", ["write"])]
-    seen = set()
+    try:
+        n = len(E[0])
+    except Exception:
+        n = 0
+    obs = [("len", ["len"])] + [("get", ["get", f]) for f in names] + [("tolist", ["tolist"]), ("write", ["write"])]
+    seen = set(d.key() for d in divs)
     for where, op in obs:
-        lo = _outcome(lambda: apply_op(env, op, L, 0, "lazy"))
-        eo = _outcome(lambda: apply_op(env, op, E, 0, "eager"))
-        st, d = _compare(len(prog), where, lo, eo, bytes_like=(op[0] == "write"))
+        lo = _outcome(lambda: apply_op(env, op, L, None, "lazy"))
+        eo = _outcome(lambda: apply_op(env, op, E, None, "eager"))
+        st, d = _compare(len(prog), where, lo, eo, bytes_like=(op[0] == "write"), fmt=env.fmt)
+        if d and where == "write" and d.kind == "bytes-differ" and \
+                any(x.where == "observe" and x.kind == "values-differ" and x.step == len(prog) for x in divs):
+            continue   # a consequence of the diverging column already reported
+        if d:
+            d.empty = (n == 0)
         if d and d.key() not in seen:
             seen.add(d.key())
-            d.detail = "%s: %s" % ("/".join(op), d.detail)
+            d.detail = "final observation %s: %s" % ("/".join(op), d.detail)
             divs.append(d)
-    return ("diverged" if divs else "ok"), divs
+    return ("diverged" if divs else status), divs
 
 
 # ----------------------------------------------------------------------------------------------------------------
@@ -505,49 +587,71 @@ def _has(env, prog, key):
     return any(d.key() == key for d in divs)
 
 
+def _canonical_candidates(op, fields):
+    """[(replacement op, label)] tried in order; the first one that keeps the divergence names the op"""
+    names = [f for f, _ in fields]
+    kinds = dict(fields)
+    repl = [f for f in names if kinds[f] != "other"]
+    k = op[0]
+    if k == "idx":
+        return [(["idx", CANON_IDX], "idx")], "idx." + op[1]
+    if k == "cat":
+        return [(["cat", "tu"], "cat")], "cat." + op[1]
+    if k in ("get", "tolist", "write", "str", "item", "len"):
+        own = k if k != "get" else "get(%s)" % op[1]
+        return [(["get", names[0]], "get")], own
+    if k in ("replace", "set"):
+        own = "%s%s(%s)" % (k, "+1" if op[2] == "self" else "", op[1])
+        c = []
+        if repl:
+            c.append((["replace", repl[0], "fresh"], "replace"))
+            if k == "set":
+                c.append((["set", repl[0], "fresh2"], "set"))
+            if op[2] == "self":
+                ints = [f for f in repl if kinds[f] == "int"]
+                if ints:
+                    c.append((["replace", ints[0], "self"], "replace+1"))
+            c.append(([k, op[1], "fresh"], "%s(%s)" % (k, kinds.get(op[1], "?"))))
+        return c, own
+    return [], k
+
+
 def minimise(env, prog, div):
-    """delete ops while a divergence with the same (where, kind) remains; then generalise parameters"""
+    """delete ops while a divergence with the same (where, kind) remains; then name every remaining op by the most
+    canonical variant of it that keeps the divergence (so that one cause gives one shape)"""
     key = div.key()
-    cur = list(prog[:div.step + 1]) if div.step < len(prog) else list(prog)
+    at_op = div.step < len(prog)
+    cur = [list(o) for o in (prog[:div.step + 1] if at_op else prog)]
     changed = True
     while changed:
         changed = False
         for i in range(len(cur)):
-            cand = cur[:i] + cur[i + 1:]
-            if div.step < len(prog) and i == len(cur) - 1:
+            if at_op and i == len(cur) - 1:
                 continue  # the diverging op itself stays
+            cand = cur[:i] + cur[i + 1:]
             if _has(env, cand, key):
                 cur = cand
                 changed = True
                 break
-    # generalise: which parameters matter?
+    fields = field_names(env)
     labels = []
-    names = None
+    canon = [list(o) for o in cur]
     for i, op in enumerate(cur):
-        lab = op[0]
-        if op[0] == "idx":
-            cand = cur[:i] + [["idx", CANON_IDX]] + cur[i + 1:]
-            lab = "idx" if (op[1] == CANON_IDX or _has(env, cand, key)) else "idx." + op[1]
-        elif op[0] == "cat":
-            lab = "cat." + op[1]
-        elif op[0] == "item":
-            lab = "item"
-        elif op[0] in ("get", "replace", "set"):
-            lab = op[0] + ("+1" if len(op) > 2 and op[2] == "self" else "")
-            if names is None:
-                names = field_names(env)
-            same_kind = [f for f, k in names if k == dict(names).get(op[1])]
-            canon = same_kind[0] if same_kind else op[1]
-            if canon != op[1]:
-                cand = cur[:i] + [[op[0], canon] + list(op[2:])] + cur[i + 1:]
-                if not _has(env, cand, key):
-                    lab += "(" + op[1] + ")"
-                else:
-                    lab += "(" + dict(names).get(op[1], "?") + ")"
-            else:
-                lab += "(" + dict(names).get(op[1], "?") + ")"
+        cands, own = _canonical_candidates(op, fields)
+        lab = own
+        for rep, name in cands:
+            if rep == op:
+                lab = name
+                break
+            trial = canon[:i] + [rep] + canon[i + 1:]
+            if _has(env, trial, key):
+                lab = name
+                canon = trial
+                break
         labels.append(lab)
-    return cur, labels
+    if at_op and cur and cur[-1][0] in PURE:
+        labels = labels[:-1]   # the diverging observation itself is named after "=>"
+    return cur, canon, labels
 
 
 def field_names(env):
@@ -555,9 +659,22 @@ def field_names(env):
     return [(f.name, field_kind(f.type)) for f in dataclasses.fields(E[0])]
 
 
-def signature(env, labels, div):
-    mode = "whole" if env.mode == "whole" else "chunked"
-    return "%s:%s:%s=>%s:%s" % (env.fmt, mode, ">".join(labels) if labels else "read", div.where, div.kind)
+def signature(env, labels, div, chunked_only=False):
+    return "%s:%s%s=>%s:%s" % (env.fmt, ">".join(labels) if labels else "read", ":chunked-only" if chunked_only else "",
+                               div.where, div.kind)
+
+
+def collapsed_signature(env, div):
+    """divergences that cover a whole region of the scope whatever the program: one signature, no minimisation"""
+    if div.kind == HEADER_ONLY:
+        return "%s:write:%s" % (env.fmt, HEADER_ONLY)
+    if div.empty:
+        return "%s:empty-table=>%s:%s" % (env.fmt, div.where, div.kind)
+    if "only 0-dimensional arrays can be converted" in div.detail:
+        # t[i] / str(t) of a table with ragged columns: npstructures' single-row access raises under this numpy
+        # unless the column happens to be contiguous; which mode fails depends on what was materialised before
+        return "%s:single-row-access:one-mode-fails:ragged-row-TypeError" % env.fmt
+    return None
 
 
 def is_subsequence(small, big):
@@ -570,7 +687,7 @@ def is_subsequence(small, big):
 # ----------------------------------------------------------------------------------------------------------------
 
 def alphabet(fields, level):
-    """level: 'core' (small), 'wide' (every field, every index kind)"""
+    """level: 'mini' < 'core' < 'wide' (every field, every index kind); each level contains the previous one"""
     names = [f for f, _ in fields]
     kinds = dict(fields)
     repl = []
@@ -578,28 +695,38 @@ def alphabet(fields, level):
         fs = [f for f in names if kinds[f] == k]
         if fs:
             repl.append(fs[0])
+    ints = [f for f in names if kinds[f] == "int"]
+    mini = [["get", (ints or names)[0]], ["tolist"], ["idx", "m_alt"], ["cat", "tu"], ["cat", "ut"], ["swap"]]
+    if repl:
+        mini += [["replace", repl[0], "fresh"], ["set", repl[0], "fresh2"]]
+    if level == "mini":
+        return mini
+    gets = []
+    for f in [names[0]] + ints[:1] + [names[-1]]:
+        if f not in gets:
+            gets.append(f)
+    core = [["len"], ["write"], ["item", "last"]] + [["get", f] for f in gets] + \
+           [["idx", x] for x in ("s_tail", "s_rev", "i_dup", "s_empty")] + [["cat", "tt"]] + \
+           [["replace", f, "fresh"] for f in repl[:2]]
+    if repl and kinds[repl[0]] == "int":
+        core.append(["replace", repl[0], "self"])
+    out = list(mini)
+    for o in core:
+        if o not in out:
+            out.append(o)
     if level == "core":
-        gets = []
-        for f in [names[0]] + [f for f in names if kinds[f] == "int"][:1] + [names[-1]]:
-            if f not in gets:
-                gets.append(f)
-        repl = repl[:2]
-        idx = ["s_tail", "s_rev", "m_alt", "i_dup", "s_empty"]
-        obs = [["len"], ["tolist"], ["write"], ["item", "last"]]
-        reps = [["replace", f, "fresh"] for f in repl] + [["set", repl[0], "fresh2"]] if repl else []
-        if repl and kinds[repl[0]] == "int":
-            reps.append(["replace", repl[0], "self"])
-    else:
-        gets = names
-        idx = ["s_tail", "s_head", "s_step", "s_rev", "s_mid", "s_empty", "s_all", "m_alt", "m_nofirst", "m_none",
-               "m_all", "i_rev", "i_dup", "i_neg", "i_last"]
-        obs = [["len"], ["tolist"], ["write"], ["item", "first"], ["item", "last"], ["item", "np_last"], ["str"]]
-        allrepl = [f for f in names if kinds[f] != "other"]
-        reps = [["replace", f, "fresh"] for f in allrepl] + [["set", f, "fresh2"] for f in repl] + \
-               [["replace", f, "self"] for f in allrepl if kinds[f] == "int"][:2]
-    ops = obs + [["get", f] for f in gets] + [["idx", s] for s in idx] + \
-          [["cat", "tu"], ["cat", "ut"], ["cat", "tt"], ["swap"]] + reps
-    return ops
+        return out
+    allrepl = [f for f in names if kinds[f] != "other"]
+    seqids = [f for f in names if kinds[f] == "seqid"]
+    wide = [["item", "first"], ["item", "np_last"], ["item", "neg"], ["str"]] + [["get", f] for f in names] + \
+           [["idx", x] for x in ("s_head", "s_step", "s_mid", "s_all", "m_nofirst", "m_none", "m_all", "i_rev", "i_neg",
+                                 "i_last")] + \
+           [["replace", f, "fresh"] for f in allrepl] + [["set", f, "fresh2"] for f in repl] + \
+           [["replace", f, "self"] for f in ints[:2]] + [["replace", f, "era"] for f in seqids[:1]]
+    for o in wide:
+        if o not in out:
+            out.append(o)
+    return out
 
 
 PURE = ("len", "tolist", "write", "item", "str", "get")
@@ -615,23 +742,45 @@ def redundant(prog):
 class Runner:
     def __init__(self, col, tmp):
         self.col, self.tmp = col, tmp
-        self.known = {}      # (fmt, mode) -> list of (minimal program, key, signature)
+        self.known = {}       # (fmt, mode) -> list of (minimal program, key, signature)
         self.bad_prefix = {}  # (fmt, mode) -> set of program prefixes (as tuples) that diverge at their last op
+        self.done = {}        # (fmt, mode) -> set of programs evaluated
         self.envs = {}
+        self.fields = {}
+        self.no_item = {}
+        self.stats = {}
 
     def env(self, fmt, mode):
         if (fmt, mode) not in self.envs:
             self.envs[(fmt, mode)] = Env(self.tmp, fmt, mode)
         return self.envs[(fmt, mode)]
 
+    def ops(self, fmt, mode, level):
+        """the alphabet of one configuration; t[i] is left out of the products where it fails in both modes on the
+        table as read (then every program containing it is the program without it)"""
+        fm = (fmt, mode)
+        if fm not in self.fields:
+            self.fields[fm] = field_names(self.env(fmt, mode))
+            st, divs = run_program(self.env(fmt, mode), [["item", "last"]], final=False)
+            self.no_item[fm] = (st == "both-fail" and not divs)
+        ops = alphabet(self.fields[fm], level)
+        if self.no_item[fm]:
+            ops = [o for o in ops if o[0] != "item"]
+        return ops
+
     def evaluate(self, fmt, mode, prog, contract):
         col = self.col
         fm = (fmt, mode)
         tprog = tuple(tuple(o) for o in prog)
+        done = self.done.setdefault(fm, set())
+        if tprog in done:
+            return "dup"
         bad = self.bad_prefix.setdefault(fm, set())
         for k in range(1, len(tprog)):
             if tprog[:k] in bad:
+                self.stats["pruned"] = self.stats.get("pruned", 0) + 1
                 return "pruned"
+        done.add(tprog)
         env = self.env(fmt, mode)
         case = {"fmt": fmt, "mode": mode, "prog": [list(o) for o in prog]}
         try:
@@ -641,13 +790,17 @@ class Runner:
             col.case(case, contract=contract)
             col.fail("%s:harness-exception:%s" % (fmt, type(e).__name__), case, traceback.format_exc()[-500:])
             return "error"
+        self.stats[status] = self.stats.get(status, 0) + 1
         if status == "skip":
             return "skip"
         col.case(case, nontrivial=len(prog) > 0, contract=contract)
         for d in divs:
-            if d.step < len(prog):
+            if d.step < len(prog) and d.kind != HEADER_ONLY:
                 bad.add(tprog[:d.step + 1])
-            sig = None
+            sig = collapsed_signature(env, d)
+            if sig is not None:
+                col.fail(sig, case, "step %d (%s): %s" % (d.step, d.op, d.detail))
+                continue
             body = [list(o) for o in (prog[:d.step + 1] if d.step < len(prog) else prog)]
             for mprog, key, msig in self.known.setdefault(fm, []):
                 if key == d.key() and is_subsequence(mprog, body):
@@ -655,86 +808,113 @@ class Runner:
                     break
             if sig is None:
                 try:
-                    mprog, labels = minimise(env, prog, d)
+                    mprog, canon, labels = minimise(env, prog, d)
                 except Exception:
-                    mprog, labels = body, [o[0] for o in body]
-                sig = signature(env, labels, d)
+                    mprog, canon, labels = body, body, [o[0] for o in body]
+                chunked_only = False
+                if mode != "whole":
+                    try:
+                        chunked_only = not _has(self.env(fmt, "whole"), canon, d.key())
+                    except Exception:
+                        chunked_only = True
+                sig = signature(env, labels, d, chunked_only)
                 self.known[fm].append((mprog, d.key(), sig))
-                case = {"fmt": fmt, "mode": mode, "prog": mprog, "found_in": [list(o) for o in prog]}
-            col.fail(sig, case, "step %d (%s): %s" % (d.step, d.where, d.detail))
+                mcase = {"fmt": fmt, "mode": mode, "prog": canon, "minimal": mprog, "found_in": [list(o) for o in prog]}
+                col.fail(sig, mcase, "step %d (%s): %s" % (d.step, d.op, d.detail))
+                continue
+            col.fail(sig, case, "step %d (%s): %s" % (d.step, d.op, d.detail))
         return status
 
 
+MAIN = ("bed", "fastq", "sam", "vcf0")
+
+
 def plan(tier):
-    """-> list of (fmt, mode, level, Lmax, n_samples, sample_len)"""
-    out = []
+    """-> (tasks, samples); task = (L, fmt, mode, level): every program of exactly L ops over that alphabet;
+    samples = (fmt, mode, n, maxlen)"""
+    tasks, samples = [], []
     for fmt in ALL_FORMATS:
-        cs = chunk_sizes(fmt)
+        cs = ["chunk:%d" % c for c in chunk_sizes(fmt)]
         if tier == "quick":
-            main = fmt in ("bed",)
-            out.append((fmt, "whole", "core", 2, 40, 4))
-            out.append((fmt, "chunk:%d" % cs[0], "core", 1 if not main else 2, 25, 4))
+            tasks += [(0, fmt, "whole", "wide"), (1, fmt, "whole", "wide")]
+            tasks += [(0, fmt, cs[0], "core"), (1, fmt, cs[0], "core")]
+            samples += [(fmt, "whole", 8, 4), (fmt, cs[0], 8, 4)]
+            tasks.append((2, fmt, "whole", "core" if fmt == "bed" else "mini"))
+            if fmt in MAIN:
+                tasks.append((2, fmt, cs[0], "mini"))
         else:
-            out.append((fmt, "whole", "core", 3 if fmt in ("bed", "fastq", "bed6", "vcf") else 2, 300, 5))
-            out.append((fmt, "whole", "wide", 2 if fmt in ("bed", "fastq", "sam", "vcf", "bam", "csv") else 1, 0, 0))
-            for c in cs:
-                out.append((fmt, "chunk:%d" % c, "core", 2, 150, 5))
-    return out
+            for mode in ["whole"] + cs:
+                tasks += [(0, fmt, mode, "wide"), (1, fmt, mode, "wide")]
+                samples.append((fmt, mode, 60, 6))
+            tasks.append((2, fmt, "whole", "core"))
+            tasks += [(2, fmt, m, "mini") for m in cs]
+            tasks.append((3, fmt, "whole", "mini"))
+            if fmt == "bed":
+                tasks += [(2, fmt, "whole", "wide"), (3, fmt, "whole", "core"), (4, fmt, "whole", "mini")]
+                tasks += [(3, fmt, cs[0], "mini")]
+            elif fmt in MAIN:
+                tasks += [(3, fmt, cs[0], "mini")]
+            if fmt == "fastq":
+                tasks += [(3, fmt, "whole", "core")]
+    tasks.sort(key=lambda t: t[0])
+    return tasks, samples
 
 
 def run(tier="quick", seed=0):
     col = Collector(PID, tier, seed,
                     "every program (sequence of public ops: len, get f, t[slice|mask|int list], t[i], concatenate tu/ut/tt, "
-                    "swap, replace(f=array), replace(f=t.f+1), t.f=array, tolist, str, write) up to the stated length, "
-                    "run in lock-step on lazy=True and lazy=False reads of the same file, each step and a final full "
-                    "observation compared; per format x {whole read, chunked read}; longer programs sampled with the seed. "
-                    "distinct = distinct (format, read mode, program); non-trivial = program of length >= 1")
-    bounds = {"formats": ALL_FORMATS, "records": "file A 3, file B 2, chunked file 5", "plan": []}
+                    "swap, replace(f=array), replace(f=t.f+1), t.f=array, tolist, str, write) of the stated lengths over the "
+                    "stated alphabet, run in lock-step on lazy=True and lazy=False reads of the same file; every step and a "
+                    "final full observation (len, every field, tolist, written bytes) compared; per format x {whole read, "
+                    "chunked read}; longer programs sampled with the seed.  distinct = distinct (format, read mode, "
+                    "program); non-trivial = program of length >= 1",
+                    budget_s=(55 if tier == "quick" else 540))
+    import logging
+    logging.getLogger("bionumpy").setLevel(logging.ERROR)   # the library logs a warning per read/write
+    tasks, samples = plan(tier)
+    bounds = {"formats": ALL_FORMATS, "records": "file A 3, file B 2, chunked file 5 (A+B)",
+              "chunk_sizes": {f: chunk_sizes(f) for f in ALL_FORMATS},
+              "exhaustive": [], "sampled": [], "cut": []}
     with TmpDir() as tmp:
         r = Runner(col, tmp)
-        todo = plan(tier)
-        # pass 1: exhaustive part, shortest programs first over all formats, so that a time-out cuts long programs only
-        maxL = max(p[3] for p in todo)
-        alph = {}
-        for fmt, mode, level, Lmax, ns, sl in todo:
-            try:
-                fields = field_names(r.env(fmt, mode))
-            except Exception as e:
-                col.case({"fmt": fmt, "mode": mode, "prog": []}, contract="read")
-                col.fail("%s:eager-read-fails:%s" % (fmt, type(e).__name__), {"fmt": fmt, "mode": mode, "prog": []}, str(e)[:300])
-                fields = []
-            alph[(fmt, mode, level)] = alphabet(fields, level) if fields else []
-            bounds["plan"].append({"fmt": fmt, "mode": mode, "alphabet": level, "n_ops": len(alph[(fmt, mode, level)]),
-                                   "exhaustive_len": Lmax, "sampled": ns, "sample_len": sl})
         stop = False
-        for L in range(0, maxL + 1):
-            for fmt, mode, level, Lmax, ns, sl in todo:
-                if L > Lmax or not alph[(fmt, mode, level)]:
-                    continue
-                for prog in itertools.product(alph[(fmt, mode, level)], repeat=L):
-                    if redundant(prog):
-                        continue
-                    r.evaluate(fmt, mode, list(prog), "lockstep:%s" % ("whole" if mode == "whole" else "chunked"))
-                    if col.evaluations % 50 == 0 and col.out_of_time():
-                        stop = True
-                        break
-                if stop:
-                    break
+        sample_budget = 0.85 * col.budget_s   # the exhaustive part stops here so that the sampled part always runs
+        for L, fmt, mode, level in tasks:
+            contract = "lockstep:%s" % ("whole" if mode == "whole" else "chunked")
+            try:
+                ops = r.ops(fmt, mode, level)
+            except Exception as e:
+                case = {"fmt": fmt, "mode": mode, "prog": []}
+                col.case(case, contract="read")
+                col.fail("%s:eager-read-fails:%s" % (fmt, type(e).__name__), case, str(e)[:300])
+                continue
             if stop:
-                break
-        # pass 2: sampled longer programs
-        if not stop:
-            for fmt, mode, level, Lmax, ns, sl in todo:
-                ops = alph[(fmt, mode, level)]
-                if not ops or not ns:
+                bounds["cut"].append([L, fmt, mode, level])
+                continue
+            n0 = col.evaluations
+            for prog in itertools.product(ops, repeat=L):
+                if redundant(prog):
                     continue
-                wide = alphabet(field_names(r.env(fmt, mode)), "wide")
-                for _ in range(ns):
-                    Ls = col.rng.randint(Lmax + 1, max(sl, Lmax + 1))
-                    prog = [col.rng.choice(wide) for _ in range(Ls)]
-                    r.evaluate(fmt, mode, prog, "lockstep-sampled")
-                if col.out_of_time():
+                r.evaluate(fmt, mode, [list(o) for o in prog], contract)
+                if col.evaluations % 20 == 0 and (__import__("time").time() - col.t0) > sample_budget:
+                    stop = True
+                    col.exhaustive = False
                     break
+            bounds["exhaustive"].append({"len": L, "fmt": fmt, "mode": mode, "alphabet": level, "n_ops": len(ops),
+                                         "evaluated": col.evaluations - n0, "complete": not stop})
+        for fmt, mode, n, maxlen in samples:
+            if col.out_of_time():
+                break
+            try:
+                wide = r.ops(fmt, mode, "wide")
+            except Exception:
+                continue
+            n0 = col.evaluations
+            for _ in range(n):
+                prog = [list(col.rng.choice(wide)) for _ in range(col.rng.randint(3, maxlen))]
+                r.evaluate(fmt, mode, prog, "lockstep-sampled")
+            bounds["sampled"].append({"fmt": fmt, "mode": mode, "n": col.evaluations - n0, "len": "3..%d" % maxlen})
+        bounds["outcomes"] = dict(r.stats)
     col.bounds = bounds
     return col.result()
 
